@@ -114,6 +114,25 @@ static void collect(const Db* db, int firstCol, std::vector<double>& out, int& n
 
 struct Result { int err = 0; int ncol = 0; int nrow = 0; std::vector<double> vals; Value extra = Value::object(); };
 
+// model given by name, or as {"struct": <ECov key>, "range": r, "sill": s, "param": p}
+static Model* modelOf(const Value& c, const char* def)
+{
+  if (!c.has("model")) return makeModel(def);
+  const Value& m = c.at("model");
+  if (m.kind == Value::Str) return makeModel(m.s());
+  ECov type = ECov::fromKey(m.at("struct").s());
+  return Model::createFromParam(type, m.getd("range", 1.), m.getd("sill", 1.), m.getd("param", 1.));
+}
+
+// selection: "sel" = list of 0/1 per sample (0 = masked)
+static void applySel(Db* db, const Value& c)
+{
+  if (db == nullptr || !c.has("sel")) return;
+  VectorDouble sel;
+  for (int v : c.at("sel").ints()) sel.push_back((double)v);
+  db->addColumns(sel, "sel", ELoc::SEL);
+}
+
 static Rule* makeRule(const std::string& name)
 {
   if (name == "S2") return Rule::createFromNames({"S", "F1", "F2"});
@@ -153,13 +172,14 @@ static Result runCall(const Value& c)
   }
   else if (op == "simtub")
   {
-    Model* model = makeModel(c.gets("model", "sph"));
+    Model* model = modelOf(c, "sph");
     bool cond = c.getb("cond", false);
     Db* data = nullptr;
     NeighUnique* neigh = nullptr;
     if (cond)
     {
       data = makePoints(c.at("data"), c.getd("data_dx", 0.), 1, {{"z", ELoc::Z}});
+      applySel(data, c);
       if (!c.getb("noneigh", false)) neigh = NeighUnique::create();
     }
     Db* out;
@@ -173,7 +193,7 @@ static Result runCall(const Value& c)
   }
   else if (op == "simfft")
   {
-    Model* model = makeModel(c.gets("model", "sph"));
+    Model* model = modelOf(c, "sph");
     DbGrid* grid = makeGrid(c);
     int first = grid->getColumnNumber();
     SimuFFTParam param(true, 0.1);
@@ -184,7 +204,7 @@ static Result runCall(const Value& c)
   else if (op == "spde")
   {
     // no seed argument in the API: the stream is the process-wide one
-    Model* model = makeModel(c.gets("model", "mat"));
+    Model* model = modelOf(c, "mat");
     DbGrid* grid = makeGrid(c);
     int first = grid->getColumnNumber();
     Db* data = nullptr;
@@ -198,8 +218,9 @@ static Result runCall(const Value& c)
   {
     // data = [x, y, lower10, upper10]
     Db* data = makePoints(c.at("data"), 0., 2, {{"lo", ELoc::L}, {"up", ELoc::U}});
+    applySel(data, c);
     int first = data->getColumnNumber();
-    Model* model = c.getb("nomodel", false) ? nullptr : makeModel(c.gets("model", "exp"));
+    Model* model = c.getb("nomodel", false) ? nullptr : modelOf(c, "exp");
     const std::string mode = c.gets("mode", "umulti");
     r.err = gibbs_sampler(data, model, c.geti("nbsimu", 1), c.at("seed").i(), c.geti("nburn", 0), c.geti("niter", 10),
                           mode == "mmulti", false, mode == "multimono", false, false, 0, 5., false, false, false);
@@ -216,6 +237,7 @@ static Result runCall(const Value& c)
     {
       if (bi) data = makePoints(c.at("data"), 0., 2, {{"fac1", ELoc::Z}, {"fac2", ELoc::Z}});
       else    data = makePoints(c.at("data"), 0., 1, {{"fac", ELoc::Z}});
+      applySel(data, c);
       // facies are given as integers (not tenths)
       for (int v = 0; v < (bi ? 2 : 1); v++)
         for (int i = 0; i < data->getSampleNumber(); i++)
